@@ -6,7 +6,9 @@ require git.defalsify.org/vise.git v0.0.0
 
 require (
 	github.com/barbashov/iso639-3 v0.0.0-20211020172741-1f4ffb2d8d1c // indirect
+	github.com/fxamacker/cbor/v2 v2.4.0 // indirect
 	github.com/mattn/kinako v0.0.0-20170717041458-332c0a7e205a // indirect
+	github.com/x448/float16 v0.8.4 // indirect
 	gopkg.in/leonelquinteros/gotext.v1 v1.3.1 // indirect
 )
 
